@@ -244,4 +244,64 @@ def repClauses (i : RepInput) (after : List Nat) : List (String × Bool) :=
 
 def repHolds (i : RepInput) (after : List Nat) : Bool := (repClauses i after).all (·.2)
 
+/-! ### observation 4: the policy table of a cluster `Config` after its sources, and calls against a server built from it
+
+"Endpoints meant for local use are refused to every remote caller" and "a peer that is not trusted can invoke only the
+identity, version and join-handshake endpoints" are stated for every configuration: nothing an operator can put in the
+service file or in the environment may widen an endpoint. (`ipfs-cluster-follow` only closes one.) -/
+
+/-- how wide a table value is, by the documented constants of rpc_policy.go: 2 = open, 1 = trusted, anything else closed -/
+def specLevel (v : Int) : Nat := if v == 2 then 2 else if v == 1 then 1 else 0
+
+/-- `table`: the `Config.RPCPolicy` of the implementation after the sources -/
+def polClauses (table : Policy) : List (String × Bool) :=
+  [ ("config_cannot_widen", table.all (fun e => decide (specLevel e.2 ≤ (intentOf e.1).level))) ]
+
+def polHolds (table : Policy) : Bool := (polClauses table).all (·.2)
+
+/-- a remote call (caller trusted by the serving peer or not) against the server built from that `Config` -/
+structure PolRpcInput where
+  srcs : List PSource
+  trusted : Bool
+  ep : String
+  deriving Repr
+
+def polRpcClauses (i : PolRpcInput) (o : Obs) : List (String × Bool) :=
+  [ ("untrusted_only_handshake", i.trusted || o == .refused || openSet.contains i.ep),
+    ("local_only_refused_remote", !localOnly i.ep || o == .refused) ]
+
+def polRpcHolds (i : PolRpcInput) (o : Obs) : Bool := (polRpcClauses i o).all (·.2)
+
+/-! ### the configured table is respected (every policy kind, made-up tables included)
+
+"Endpoints meant for local use are refused to every remote caller" also holds for what the CONFIGURATION declares local:
+the program embedding the peer may tighten its table before `NewCluster` (ipfs-cluster-follow closes `Cluster.RepoGCLocal`).
+An endpoint whose configured entry is closed (or an unknown value) must be refused to every remote caller, one whose entry
+is trusted to every untrusted remote caller - whatever `NewCluster` -> `Config.Validate()` does to the table on the way.
+`configured`: the entry of the endpoint in the table handed to `NewCluster` (`none`: no entry - nothing is claimed). -/
+def rpcCfgClauses (configured : Option Int) (i : RpcInput) (o : Obs) : List (String × Bool) :=
+  if !i.registered then [] else
+  match i.caller, configured with
+  | .remote p, some v =>
+    [ ("configured_class_respected",
+        p == i.self || o == .refused || specLevel v == 2 || (specLevel v == 1 && specTrusted i.ts p)) ]
+  | _, _ => []
+
+def rpcCfgHolds (configured : Option Int) (i : RpcInput) (o : Obs) : Bool := (rpcCfgClauses configured i o).all (·.2)
+
+/-- did an `ipfs-cluster-follow` step close its endpoint: the step ran on a `Config` that already had a table -/
+def closedByFollower : List PSource → Bool → Bool
+  | [], _ => false
+  | .follower :: rest, inst => inst || closedByFollower rest inst
+  | .default :: rest, _ => closedByFollower rest true
+  | .load _ :: rest, _ => closedByFollower rest true
+  | .env _ :: rest, inst => closedByFollower rest inst
+
+/-- the endpoint ipfs-cluster-follow declares local (cmd/ipfs-cluster-follow/commands.go) -/
+def followerClosedEndpoint : String := "Cluster.RepoGCLocal"
+
+def polRpcCfgClauses (i : PolRpcInput) (o : Obs) : List (String × Bool) :=
+  [ ("follower_closing_respected",
+      !(i.ep == followerClosedEndpoint && closedByFollower i.srcs false) || o == .refused) ]
+
 end CV.C07
